@@ -457,6 +457,8 @@ func printProtoFile(pkg string, f *schemaFile) string {
 	p.line("")
 	p.line("package %s;", pkg)
 	p.line("")
+	// (a hand-written file of a bundle typically also declares the project's own options: three extendees, in this order)
+	p.line("import \"google/protobuf/descriptor.proto\";")
 	for _, im := range f.Imports {
 		switch im.Form {
 		case "j5sfile":
@@ -494,5 +496,17 @@ func printProtoFile(pkg string, f *schemaFile) string {
 		}
 		p.line("")
 	}
+	p.line("extend google.protobuf.MessageOptions {")
+	p.line("  string %s_note = 50001;", f.Name)
+	p.line("}")
+	p.line("")
+	p.line("extend google.protobuf.FieldOptions {")
+	p.line("  string %s_hint = 50001;", f.Name)
+	p.line("  bool %s_flag = 50002;", f.Name)
+	p.line("}")
+	p.line("")
+	p.line("extend google.protobuf.EnumOptions {")
+	p.line("  string %s_kind = 50001;", f.Name)
+	p.line("}")
 	return p.sb.String()
 }
